@@ -191,7 +191,9 @@ def _type_of_kind(d, kind, depth):
                 p = 'def'
             if p == 'def':
                 # mostly scalar defaults; sometimes a constructed one (SEQUENCE OF, record, CHOICE of scalars)
-                ddepth = 1 if depth > 1 and d.pct(cfg.get('constructed_default_pct', 20)) else 0
+                ddepth = 0
+                if depth > 1 and d.pct(cfg.get('constructed_default_pct', 20)):
+                    ddepth = min(depth - 1, d.pick([1, 1, 2]))
                 # (no REAL or time type anywhere in a default: the library recognises defaults through float() / string equality)
                 dkinds = [k for k in (cfg['kinds'] or SIMPLE_KINDS) if k not in ('REAL', 'GeneralizedTime', 'UTCTime')] or ['INTEGER']
                 ct = draw_type(D(d.draw, dict(cfg, any=False, kinds=dkinds if ddepth else cfg['kinds'],
